@@ -85,3 +85,71 @@ package types
 //@                         && present(co) && clienttypes.decodesCons(val(co)) && isa(cobj, ConsensusState) && present(pt) && u64(pt) + self.TimeDelay <=u unixnano(now())
 //@                         && commitmenttypes.MerkleMember(mp, self.ProofSpecs, str(cons.Root.Hash), 2, str(self.MerklePrefix.KeyPrefix), keyrepr(cleanPt(sourceChain, destChain)), enc64(sequence))
 //@                         ==> err == nil
+//@
+//@ // ---------------------------------------------------------------------------------------------------------
+//@ // C07: header updates
+//@ subkeyfn IterationKey(h) = tmIterKey(h.GetRevisionNumber(): u64, h.GetRevisionHeight(): u64)
+//@
+//@ // update: the latest height is the maximum (lexicographic on revision, height) of the old one and the header's; the new
+//@ // consensus state is exactly the header's time, app hash and next-validators hash; only metadata of that height is written
+//@ func update(ctx, clientStore, clientState, header) (newCS, newCons)
+//@   props C07
+//@   modifies tibc
+//@   let c    = clientOf(clientStore)
+//@   let hrev = revof(header.SignedHeader.Header.ChainID)
+//@   let hh   = header.SignedHeader.Header.Height
+//@   let old  = clientState.LatestHeight
+//@   let newer = old.RevisionNumber <u hrev || (old.RevisionNumber == hrev && old.RevisionHeight <u hh)
+//@   ensures latest.max:  newCS.LatestHeight.RevisionNumber == ite(newer, hrev, old.RevisionNumber) && newCS.LatestHeight.RevisionHeight == ite(newer, hh, old.RevisionHeight)
+//@   ensures latest.never_decreases: !(newCS.LatestHeight.RevisionNumber <u old.RevisionNumber || (newCS.LatestHeight.RevisionNumber == old.RevisionNumber && newCS.LatestHeight.RevisionHeight <u old.RevisionHeight))
+//@   ensures cons.fields: newCons.Timestamp == header.SignedHeader.Header.Time && newCons.Root.Hash == header.SignedHeader.Header.AppHash &&
+//@                        newCons.NextValidatorsHash == header.SignedHeader.Header.NextValidatorsHash
+//@   ensures other.fields: newCS.ChainId == clientState.ChainId && newCS.TrustingPeriod == clientState.TrustingPeriod && newCS.MaxClockDrift == clientState.MaxClockDrift &&
+//@                        newCS.TrustLevel == clientState.TrustLevel && newCS.TimeDelay == clientState.TimeDelay
+//@   ensures metadata:    tibc == old(tibc)[tmProcessedTime(c, hrev, hh) := enc64(unixnano(now()))][tmIterKey(c, hrev, hh) := subrepr(consState, hrev, hh)]
+//@
+//@ // checkValidity: accepted only if the supplied trusted validators hash to what the trusted state committed to, the header is
+//@ // in the trusted height's revision and strictly above it, and cometbft's light.Verify accepts with exactly the client's
+//@ // parameters, the trusted state's time / next-validators hash and the block time
+//@ func checkValidity(clientState, consState, header, currentTimestamp) (err)
+//@   props C07
+//@   let hrev = revof(header.SignedHeader.Header.ChainID)
+//@   let hh   = header.SignedHeader.Header.Height
+//@   ensures sound.valhash:  err == nil ==> str(consState.NextValidatorsHash) == valsethash(valsetof(header.TrustedValidators))
+//@   ensures sound.revision: err == nil ==> hrev == header.TrustedHeight.RevisionNumber
+//@   ensures sound.newer:    err == nil ==> header.TrustedHeight.RevisionHeight <u hh
+//@   let cid  = ite(isrevformat(clientState.ChainId), setrev(clientState.ChainId, hrev), clientState.ChainId)
+//@   ensures sound.protos:   err == nil ==> valsetok(header.TrustedValidators) && sheaderok(header.SignedHeader) && valsetok(header.ValidatorSet)
+//@   ensures sound.verify:   err == nil ==> lightverify(cid, header.TrustedHeight.RevisionHeight, consState.Timestamp, str(consState.NextValidatorsHash),
+//@                              valsetof(header.TrustedValidators), sheaderof(header.SignedHeader), valsetof(header.ValidatorSet),
+//@                              clientState.TrustingPeriod, currentTimestamp, clientState.MaxClockDrift, clientState.TrustLevel.Numerator, clientState.TrustLevel.Denominator)
+//@   ensures complete:       str(consState.NextValidatorsHash) == valsethash(valsetof(header.TrustedValidators)) && hrev == header.TrustedHeight.RevisionNumber &&
+//@                           header.TrustedHeight.RevisionHeight <u hh && valsetok(header.TrustedValidators) && sheaderok(header.SignedHeader) && valsetok(header.ValidatorSet) &&
+//@                           lightverify(cid, header.TrustedHeight.RevisionHeight, consState.Timestamp, str(consState.NextValidatorsHash),
+//@                              valsetof(header.TrustedValidators), sheaderof(header.SignedHeader), valsetof(header.ValidatorSet),
+//@                              clientState.TrustingPeriod, currentTimestamp, clientState.MaxClockDrift, clientState.TrustLevel.Numerator, clientState.TrustLevel.Denominator)
+//@                           ==> err == nil
+//@
+//@ // CheckHeaderAndUpdateState: accepted only for a Tendermint header whose trusted height has a stored Tendermint consensus
+//@ // state, after checkValidity accepted it against exactly that state, this client's parameters and the block time; the
+//@ // result is what `update` computes from this client state and this header; a rejection writes nothing; only keys below the
+//@ // client's own prefix are ever written (pruning + metadata).
+//@ func (ClientState).CheckHeaderAndUpdateState(ctx, cdc, clientStore, header) (newCS, newCons, err)
+//@   props C07
+//@   modifies tibc
+//@   let c  = clientOf(clientStore)
+//@   let h  = as(header, Header)
+//@   let th = h.TrustedHeight
+//@   let to = tibc[consState(c, th.RevisionNumber, th.RevisionHeight)]
+//@   let tc = as(clienttypes.consDecode(val(to)), ConsensusState)
+//@   ensures header.type:    err == nil ==> isa(header, Header)
+//@   ensures trusted.exists: err == nil ==> present(to) && clienttypes.decodesCons(val(to)) && isa(clienttypes.consDecode(val(to)), ConsensusState)
+//@   ensures checked:        err == nil ==> ncalls(checkValidity) == 1 && (forall v in calls(checkValidity) :: v.err == nil &&
+//@                              v.clientState.ChainId == self.ChainId && v.clientState.TrustingPeriod == self.TrustingPeriod && v.clientState.MaxClockDrift == self.MaxClockDrift &&
+//@                              v.clientState.TrustLevel == self.TrustLevel && v.consState.Timestamp == tc.Timestamp && v.consState.NextValidatorsHash == tc.NextValidatorsHash &&
+//@                              v.header.TrustedHeight == th && v.header.SignedHeader.Header.ChainID == h.SignedHeader.Header.ChainID && v.header.SignedHeader.Header.Height == h.SignedHeader.Header.Height &&
+//@                              v.currentTimestamp == now())
+//@   ensures updated:        err == nil ==> ncalls(update) == 1 && (forall u in calls(update) :: newCS == u.newCS && newCons == u.newCons &&
+//@                              u.clientState.LatestHeight == self.LatestHeight && u.header.SignedHeader.Header.Height == h.SignedHeader.Header.Height)
+//@   ensures reject.untouched: err != nil ==> tibc == old(tibc)
+//@   ensures frame:          forall k: key :: !inClient(k, c) ==> tibc[k] == old(tibc)[k]
